@@ -947,13 +947,10 @@ func (g *Gen) doMakeInterface(st *State, x *ssa.MakeInterface) *Val {
 	ct := x.X.Type()
 	tag := g.P.tagOf("type|" + typeName(ct))
 	if isScalarKind(v.K) && v.K != KBool {
-		fn := sym("mkif|" + typeName(ct))
-		if !g.declared[fn] {
-			g.declared[fn] = true
-			g.emit(fmt.Sprintf("(declare-fun %s (Int) Int)", fn))
-			g.emit(fmt.Sprintf("(assert (forall ((p Int)) (! (and (not (= (%s p) 0)) (= (ifptr (%s p)) p) (= (iftype (%s p)) %d)) :pattern ((%s p)))))", fn, fn, fn, tag, fn))
-		}
-		return &Val{K: KIface, T: x.Type(), S: "(" + fn + " " + v.S + ")"}
+		fn := g.mkifSym(ct)
+		r := &Val{K: KIface, T: x.Type(), S: "(" + fn + " " + v.S + ")"}
+		g.nodeBaseFact(ct, v.S, r.S)
+		return r
 	}
 	id := g.fresh("iface", "Int")
 	g.emit(fmt.Sprintf("(assert (and (not (= %s 0)) (= (iftype %s) %d)))", id, id, tag))
@@ -1078,4 +1075,68 @@ func within(flo, fhi, tlo, thi string) bool {
 
 func (g *Gen) isPkgInit() bool {
 	return g.fn.Name() == "init" && g.fn.Synthetic != "" && g.fn.Parent() == nil
+}
+
+
+// mkifSym: the injective constructor of interface values holding a value of concrete type ct.
+// Pointers are recovered with ifptr, other scalars with ifval.
+func (g *Gen) mkifSym(ct types.Type) string {
+	fn := sym("mkif|" + typeName(ct))
+	if !g.declared[fn] {
+		g.declared[fn] = true
+		tag := g.P.tagOf("type|" + typeName(ct))
+		inv := "ifval"
+		if kindOf(ct) == KPtr {
+			inv = "ifptr"
+		}
+		g.emit(fmt.Sprintf("(declare-fun %s (Int) Int)", fn))
+		g.emit(fmt.Sprintf("(assert (forall ((p Int)) (! (and (not (= (%s p) 0)) (= (%s (%s p)) p) (= (iftype (%s p)) %d)) :pattern ((%s p)))))", fn, inv, fn, fn, tag, fn))
+	}
+	return fn
+}
+
+// nodeBaseFact: when the contracts define the node model function base(v), an interface value made
+// from a pointer to a struct that embeds ast.BaseNode has base(v) = address of that embedded BaseNode.
+func (g *Gen) nodeBaseFact(ct types.Type, ptr, iface string) {
+	sf := g.P.specFuns["base"]
+	if sf == nil || kindOf(ct) != KPtr {
+		return
+	}
+	st := deref(ct)
+	if structOf(st) == nil {
+		return
+	}
+	addr, ok := g.embeddedBaseNode(st, ptr, 0)
+	if !ok {
+		return
+	}
+	g.declareSpecFun(sf)
+	key := "basefact|" + ptr + "|" + iface
+	if g.declared[key] {
+		return
+	}
+	g.declared[key] = true
+	g.assume("true", implies(not(eq(ptr, "0")), eq("("+sym("sf|base")+" "+iface+")", addr)))
+}
+
+func (g *Gen) embeddedBaseNode(t types.Type, addr string, depth int) (string, bool) {
+	if depth > 4 {
+		return "", false
+	}
+	if nt, ok := t.(*types.Named); ok && nt.Obj().Name() == "BaseNode" && nt.Obj().Pkg() != nil && nt.Obj().Pkg().Path() == modPath+"/ast" {
+		return addr, true
+	}
+	s := structOf(t)
+	if s == nil {
+		return "", false
+	}
+	for i := 0; i < s.NumFields(); i++ {
+		f := s.Field(i)
+		if f.Embedded() && kindOf(f.Type()) == KStruct {
+			if a, ok := g.embeddedBaseNode(f.Type(), g.subAddr(t, f, addr), depth+1); ok {
+				return a, true
+			}
+		}
+	}
+	return "", false
 }
